@@ -315,6 +315,23 @@ OnDestroy(e) ==
             \cup Chk(others = {}, "C15", "ReportOnlyForDestroyedObject", <<o.fam>>)
             \cup NoStrayReports("destroy"))
 
+(* sibling allocator: its allocations are live memory the subject does not own (C08) *)
+OnSalloc(e) ==
+  LET rec == [id |-> e.id, o |-> e.o, b |-> e.b, off |-> e.off, len |-> e.len, op |-> "n", n |-> 1, sz |-> e.sz,
+              al |-> e.al, t |-> FALSE, taken |-> 0, exact |-> FALSE, g |-> 0]
+      clash == {a \in st.live : Overlap(a, rec)}
+  IN IF e.r = "ok" /\ e.id > 0
+     THEN Result([st EXCEPT !.live = @ \cup {rec}, !.pend = <<>>, !.inj = 0],
+            Chk(clash = {}, "C01", "DisjointFromLive", <<"sibling", e.b, e.off, e.len, {a.id : a \in clash}>>))
+     ELSE Result([st EXCEPT !.pend = <<>>, !.inj = 0], {})
+OnSfree(e) == Result([st EXCEPT !.live = {a \in @ : a.id # e.id}, !.pend = <<>>, !.inj = 0], {})
+OnTdx(e) ==
+  Result([st EXCEPT !.pend = <<>>, !.inj = 0],
+    Chk(e.r = "false", "C08", "TryDeallocFalseForForeign", <<Obj(e.o).fam, e.r, e.b, e.off>>)
+    \cup Chk(e.cap0 = e.cap1 /\ e.fn0 = e.fn1, "C08", "FalseChangesNothing", <<e.cap0, e.cap1, e.fn0, e.fn1>>)
+    \cup Chk(e.bad = 0, "C08", "ForeignMemoryUntouched", <<e.id, e.bad>>)
+    \cup NoStrayReports("tdx"))
+
 OnSweep(e) ==
   Result([st EXCEPT !.pend = <<>>],
          Chk(e.nbad = 0, "C01", "ContentIntactAtSweep", <<e.bad>>)
@@ -344,6 +361,9 @@ Apply(e) ==
     [] e.e = "move" -> OnMove(e)
     [] e.e = "destroy" -> OnDestroy(e)
     [] e.e = "sweep" -> OnSweep(e)
+    [] e.e = "salloc" -> OnSalloc(e)
+    [] e.e = "sfree" -> OnSfree(e)
+    [] e.e = "tdx" -> OnTdx(e)
     [] e.e = "died" -> OnDied(e)
     [] e.e = "terminate" -> Result(st, {V("ANY", "NoTerminate", <<>>)})
     [] e.e = "end" -> OnEnd(e)
